@@ -32,7 +32,44 @@ def classify(c, real, msg):
     return CLASSIFY(c, real, msg) if CLASSIFY else None
 
 
+def script_model_stream(ctx, count):
+    """the spec side: every map the Python generator of PretextView scripts produces is `ptxOf` of a WELL-FORMED `Script` of
+    Model/Pretext.lean (the object the theorems of C02Script.lean quantify over), and the error length of the header text is `errLen`"""
+    import math
+    from fractions import Fraction
+    rng = ctx.rng
+    reqs, meta = [], []
+    for _ in range(count):
+        bpt = rng.choice(R.BPTS)
+        inp = R.rand_input(rng, revp=rng.choice([0.0, 0.3]), maxlen=(40 if rng.random() < 0.3 else 3000))
+        ptx, script = R.pretext_script(rng, inp, bpt, cutp=rng.choice([0.5, 0.8]), force_floor=(rng.random() < 0.3))
+        lean = dict(script.lean)
+        # group numbers: the generator numbers groups 1, 2, … and skips none unless a group came out empty
+        if [g["n"] for g in lean["groups"]] != list(range(1, len(lean["groups"]) + 1)):
+            continue
+        reqs.append({"id": 0, "kind": "script", "input": inp, "script": lean})
+        meta.append((inp, ptx, bpt, lean))
+    ms = ctx.driver.batch(reqs) if ctx.driver and reqs else [None] * len(reqs)
+    for (inp, ptx, bpt, lean), m in zip(meta, ms):
+        real = {"wf": True, "err_len": 1 + math.floor(Fraction(bpt)),
+                "ptx": [{"name": ps["name"], "rows": [conv_strip(r) for r in ps["rows"]]} for ps in ptx]}
+        key = ("script-model", len(ptx), bpt)
+        case = {"input": inp, "script": lean, "bpt": bpt}
+        if m is None:
+            ctx.out.case("script-model", case, key)
+            continue
+        mv = {"wf": m["wf"], "err_len": m["err_len"], "ptx": [{"name": ps["name"], "rows": [conv_strip(r) for r in ps["rows"]]} for ps in m["ptx"]]}
+        ctx.out.compare("script-model", case, real, mv, key)
+
+
+def conv_strip(r):
+    import conv
+    r = conv.strip_oids(r)
+    return {k: v for k, v in r.items()}
+
+
 def run(ctx):
+    script_model_stream(ctx, 1600 if ctx.thorough else 200)
     for stream, kind, n in streams(ctx):
         cases = [gen(ctx, kind) for _ in range(n)]
         R.run_cases(ctx, stream, cases, PROJ, oracle, classify)
